@@ -41,13 +41,38 @@ def extra(rng, tier):
             p.append(['apply', i])
             p.append(['list', i])
         out.append(p)
+    # a sub-circuit CONSTRUCTED with a relation to an operation of its future parent, holding measurements created against its own
+    # registry (seeded change C07-m6: the transfer table of add_sub_circuit loses the entry that re-targets those registries)
+    M = 'DispersiveMeasure'
+    for _ in range(30 if tier == 'quick' else 600):
+        q = rng.randrange(3)
+        p = [['new', 'f1']]
+        nh = 0
+        for _ in range(rng.randint(1, 3)):
+            cls = rng.choice(['Rx180', 'Wait', M])
+            p.append(['op', 0, cls, [rng.randrange(3)], 'A' if cls == M else 'M', None, rng.choice([0, 1, 2]) if cls == M else 0, 0, [], None])
+            nh += 1
+        p.append(['new', f'f{rng.choice([1, 1, 2])}', [rng.randrange(nh), rng.choice(['FB', 'JS', 'JE'])]])     # circuit 1
+        for _ in range(rng.randint(1, 3)):
+            cls = rng.choice([M, M, 'Rx180'])
+            p.append(['op', 1, cls, [q if rng.random() < 0.6 else rng.randrange(3)], 'A' if cls == M else 'M', None,
+                      rng.choice([0, 1, 2]) if cls == M else 0, 1 if cls == M else 0, [], None])
+        if rng.random() < 0.4:                                               # measurements one level deeper
+            p.append(['new', 'f1'])                                          # circuit 2
+            p.append(['op', 2, M, [rng.randrange(3)], 'A', None, rng.choice([0, 1, 2]), 2, [], None])
+            p.append(['sub', 1, 2])
+        p.append(['sub', 0, 1])
+        if rng.random() < 0.5:
+            p.append(['op', 0, M, [q], 'A', None, rng.choice([0, 1, 2]), 0, [], None])
+        p += [['list', 0], ['apply', 0], ['list', 0]]
+        out.append(p)
     return out
 
 
 SPEC = streamcheck.StreamSpec(
     PROP, probes=['C07'],
     cfg=progs.GenConfig(n_cmds=(6, 36), p_list=0.10, p_sub=0.14, p_apply=0.08, p_flatten=0.04, p_copy=0.0,
-                        class_weights=W),
+                        class_weights=W, p_newrel=0.15),
     n_quick=900, n_thorough=30000,
     nontrivial=nontrivial,
     extra_programs=extra,
